@@ -28,7 +28,9 @@ import impl_monitor as IM  # noqa: E402
 VERIF = os.path.dirname(os.path.dirname(os.path.dirname(os.path.abspath(__file__))))
 
 LEAN_MODULES = ["KmipModel.Props.C18"]
-RULE = ("histories: ALL sequences over the event alphabet {write S (add/edit/repair; S = set of policy names the "
+RULE = ("(since round 6 also files RESTORED with their old modification time after a removal - moved away and back - "
+        "as their own 9-letter family to depth 5/6 and in the random histories) "
+        "histories: ALL sequences over the event alphabet {write S (add/edit/repair; S = set of policy names the "
         "file defines, every write carries fresh definitions), break (bad JSON / unknown operation, section, "
         "permission, object type), remove, touch} x 3 files x 3 overlapping names: 21 letters to depth 4 and 10 "
         "letters to depth 5 with a scan after every event, 15 letters to depth 2 with two events per scan, 8 letters "
@@ -315,12 +317,18 @@ ALPHA_CRASH = (
     [W(0, "p"), L(0, "crs"), L(0, "rm")] +
     [W(1, "p"), W(1, "pr"), L(1, "crs")] +
     [W(2, "pq"), L(2, "tch")])
-ALPHABETS = {"full": ALPHA_FULL, "deep": ALPHA_DEEP, "pair": ALPHA_PAIR, "crash": ALPHA_CRASH}
+# "rst" = the file comes back exactly as it was when it left the directory (moved away and back, restored from a
+# backup with its times preserved): same content, same OLD modification time
+ALPHA_RESTORE = (
+    [W(0, "p"), W(0, "pq"), L(0, "rm"), L(0, "rst"), L(0, "tch")] +
+    [W(1, "p"), W(1, "q"), L(1, "rm"), L(1, "rst")])
+ALPHABETS = {"full": ALPHA_FULL, "deep": ALPHA_DEEP, "pair": ALPHA_PAIR, "crash": ALPHA_CRASH, "restore": ALPHA_RESTORE}
 
 
 def realize(letters, eps):
     """letters -> steps (lists of concrete events), or None when a letter is a no-op (pruned)"""
     present = set()
+    gone = set()
     ver = {}
     steps = []
     n = 0
@@ -333,7 +341,14 @@ def realize(letters, eps):
                 if f not in present:
                     return None
                 present.discard(f)
+                gone.add(f)
                 evs.append(["remove", f])
+            elif act[0] == "rst":
+                if f in present or f not in gone:
+                    return None
+                present.add(f)
+                gone.discard(f)
+                evs.append(["restore", f])
             elif act[0] == "tch":
                 if f not in present:
                     return None
@@ -348,6 +363,7 @@ def realize(letters, eps):
                 else:
                     text = CRASHY[(n + fidx) % len(CRASHY)]
                 present.add(f)
+                gone.discard(f)
                 evs.append(["write", f, text])
         steps.append(evs)
     return steps
@@ -357,6 +373,7 @@ def random_history(rng):
     nfiles = rng.choice([2, 3, 3, 4])
     names_pool = ["p", "q", "r"]
     present = set()
+    removed = set()
     ver = {}
     steps = []
     extra = rng.random() < 0.2
@@ -366,8 +383,13 @@ def random_history(rng):
             fidx = rng.randrange(nfiles)
             f = FILES[fidx]
             x = rng.random()
-            if f in present and x < 0.18:
+            if f not in present and f in removed and x < 0.5:
+                present.add(f)
+                removed.discard(f)
+                evs.append(["restore", f])
+            elif f in present and x < 0.18:
                 present.discard(f)
+                removed.add(f)
                 evs.append(["remove", f])
             elif f in present and x < 0.30:
                 evs.append(["touch", f])
@@ -391,6 +413,7 @@ def random_history(rng):
                         doc["empty"] = {}
                     text = json.dumps(doc)
                 present.add(f)
+                removed.discard(f)
                 evs.append(["write", f, text])
             if extra and rng.random() < 0.1:
                 evs.append(["write", "notes.txt", "not a policy file"])
@@ -426,10 +449,16 @@ def disk_after(disk, clock, evs):
         elif ev[0] == "touch":
             disk[ev[1]] = (disk[ev[1]][0], clock)
         elif ev[0] == "remove":
+            disk.setdefault(GRAVE, {})[ev[1]] = disk[ev[1]]
             del disk[ev[1]]
+        elif ev[0] == "restore":
+            disk[ev[1]] = disk[GRAVE].pop(ev[1])           # same text, same old mtime
         else:
             raise ValueError("unknown event %r" % (ev,))
     return clock
+
+
+GRAVE = "\0removed"        # key (no .json name) under which disk_after remembers what removed files looked like
 
 
 def json_files(disk):
@@ -441,15 +470,24 @@ def run_impl_history(im, steps):
     im.reset()
     clock = 1000
     obs = []
+    cur, grave = {}, {}
     for evs in steps:
         for ev in evs:
             clock += 10
             if ev[0] == "write":
                 im.write(ev[1], ev[2], clock)
+                cur[ev[1]] = (ev[2], clock)
             elif ev[0] == "touch":
                 im.touch(ev[1], clock)
+                if ev[1] in cur:
+                    cur[ev[1]] = (cur[ev[1]][0], clock)
             elif ev[0] == "remove":
                 im.remove(ev[1])
+                grave[ev[1]] = cur.pop(ev[1], None)
+            elif ev[0] == "restore":
+                text, old = grave.pop(ev[1])
+                im.write(ev[1], text, old)
+                cur[ev[1]] = (text, old)
             else:
                 raise ValueError("unknown event %r" % (ev,))
         obs.append(im.scan())
@@ -869,6 +907,8 @@ def plan(ctx, with_model=True, more=1):
     if not quick:
         tasks += family_tasks("two events per scan, depth 2, 21 letters", "full", 2, 2, 128, with_model)
         tasks += family_tasks("two events per scan, depth 3, 10 letters", "deep", 2, 3, 100, with_model)
+    tasks += family_tasks("files restored with their old modification time, depth %d, 9 letters" % (5 if quick else 6), "restore", 1,
+                          5 if quick else 6, 16 if quick else 64, with_model)
     tasks += family_tasks("with wrong-typed documents (former F-C18-b), depth %d, 8 letters" % (4 if quick else 5), "crash", 1,
                           4 if quick else 5, 16 if quick else 64, with_model)
     nrand = (2400 if quick else 120000) * more
